@@ -143,8 +143,12 @@ func discharge(o *Oblig, timeoutS int, thorough bool) SolveResult {
 	}
 	// stage 0: without the quantified assumptions (sound: fewer assumptions); most safety obligations end here
 	qfSat := false
-	if !quantified(o.Phi) {
-		r0 := runSolver(solvers[0], o.QueryQF(), min(timeoutS, 5))
+	{
+		budget := min(timeoutS, 5)
+		if quantified(o.Phi) {
+			budget = min(timeoutS, 2)
+		}
+		r0 := runSolver(solvers[0], o.QueryQF(), budget)
 		qfSat = r0.Status == "sat"
 		tried = append(tried, fmt.Sprintf("%s(qf):%s:%.2fs", r0.Solver, r0.Status, r0.TimeS))
 		if r0.Status == "unsat" {
